@@ -112,6 +112,7 @@ def check(P, R):
     check_raises(P, R)
     check_apply(P, R)
     check_shared_writes(P, R, 'C09.d', skip_config_time=True)
+    check_reinit_growth(P, R, 'C09.d')
 
 
 def _lookup_like(v):
@@ -234,6 +235,16 @@ def check_error_objects_read_only(P, R, rid):
                 b = t
                 while isinstance(b, (ast.Attribute, ast.Subscript)):
                     b = b.value
+                if isinstance(t, (ast.Attribute, ast.Subscript)) and isinstance(b, ast.Name) and b.id not in m.params:
+                    # a caught response / error object: `except HTTPError as err` may bind one of the shared errors_map instances (the request parsers raise them)
+                    ns = m.cfg.node_of_stmt(st)
+                    defs_ = m.rd.at(ns[0], b.id) if ns else []
+                    if defs_ and all(d.kind == 'except' for d in defs_):
+                        n_ += 1
+                        R.ob(rid, m, st, False, detail=
+                             f'`{short(st)}` writes into the caught object `{b.id}`: the request parsers raise the single instances kept in config.errors_map, so what one '
+                             f'request stores there (e.g. the traceback text of its malformed body) is rendered into the error pages of later requests',
+                             why='nothing set while serving an earlier request may appear in a later response', key_extra=f'{name}:caught:{b.id}')
                 if isinstance(t, (ast.Attribute, ast.Subscript)) and isinstance(b, ast.Name) and b.id in m.params[1:] and b.id != 'environ':
                     # only while the name still is the parameter (not re-bound to a fresh object)
                     ns = m.cfg.node_of_stmt(st)
@@ -437,3 +448,103 @@ def check_shared_writes(P, R, rid, strict=False, same_for_all_threads_ok=False, 
     pf = Func(pm, 'f', tree.body[1], None, None)
     hits = E.shared_writes(P, [pf])
     R.require(len(hits) == 1 and hits[0]['kind'] == 'item-assign', 'shared-write detector lost its positive control')
+
+
+def check_reinit_growth(P, R, rid):
+    """The request and response objects are built once and re-initialised by `__init__` for every request.  Whatever `__init__` (or a method of
+    self it calls) adds to a container of the object must go into a container that the same `__init__` has just re-created or re-pointed -
+    otherwise the object grows by one entry per request."""
+    inits = []
+    for cfq in ('ombott.request_pkg.request:BaseRequest', f'{RS}:BaseResponse'):
+        c = P.classes.get(cfq)
+        R.require(c is not None, f'{cfq} not found')
+        m = None
+        for k in P.mro(c):
+            if '__init__' in k.methods:
+                m = k.methods['__init__']
+                break
+        R.require(m is not None, f'{cfq}.__init__ not found')
+        inits.append((c, m))
+    n_sites = 0
+    for (c, init) in inits:
+        g = init.cfg
+        resets = {}         # attribute -> nodes that re-create / re-point it
+        for st in walk_shallow(init.node):
+            if isinstance(st, ast.Assign):
+                for t in st.targets:
+                    d0 = dotted(t) or ''
+                    if d0.startswith('self.') and isinstance(t, ast.Attribute):
+                        resets.setdefault(d0.split('.')[1], []).append(g.node_of_stmt(st)[0])
+
+        def growth_sites(fn):
+            for n in walk_shallow(fn.node):
+                if isinstance(n, ast.Call) and isinstance(n.func, ast.Attribute) and n.func.attr in E.MUTATORS and n.func.attr not in ('clear', 'pop', 'remove', 'discard', 'popitem'):
+                    recv = n.func.value
+                    while isinstance(recv, ast.Subscript):
+                        recv = recv.value
+                    d0 = dotted(recv) or ''
+                    if d0.startswith('self.'):
+                        yield n, d0.split('.')[1]
+        sites = [(init, n, a, None) for (n, a) in growth_sites(init)]
+        for call in [x for x in walk_shallow(init.node) if isinstance(x, ast.Call) and isinstance(x.func, ast.Attribute)
+                     and isinstance(x.func.value, ast.Name) and x.func.value.id == 'self']:
+            for k in P.mro(c):
+                callee = k.methods.get(call.func.attr)
+                if callee is not None:
+                    sites += [(callee, n, a, call) for (n, a) in growth_sites(callee)]
+                    break
+        for (fn, n, attr, via) in sites:
+            n_sites += 1
+            anchor = via if via is not None else n
+            at = g.node_of_stmt(anchor)[0]
+            rs = resets.get(attr, [])
+            ok = bool(rs) and g.must_pass(g.entry, at, rs)
+            where = f'{short(n)}' + (f' (through `{short(via)}`)' if via is not None else '')
+            R.ob(rid, init, anchor, ok, text=f'{c.name}.__init__: {where} adds to self.{attr}, which this __init__ has just re-created', detail='' if ok else
+                 f'{c.name}.__init__ runs once per request on a long-lived object and {where} adds an entry to self.{attr}, which is created once (in __new__) and '
+                 f'never re-created by __init__: the object keeps one more entry per request (unbounded growth, and every entry is called/consulted on later requests)',
+                 why='the number of live framework objects does not grow with the number of requests served', key_extra=f'reinit-growth:{c.name}.{attr}')
+    R.require(n_sites >= 1, 'no container addition found in the per-request initialisers (2 on the pinned tree: headers.append)')
+    # what any other method of these long-lived objects stores into a container of the object must land in a container that __init__ re-creates
+    for (c, init) in inits:
+        g = init.cfg
+        resets = {}
+        for st in walk_shallow(init.node):
+            if isinstance(st, ast.Assign):
+                for t in st.targets:
+                    d0 = dotted(t) or ''
+                    if d0.startswith('self.') and isinstance(t, ast.Attribute):
+                        resets.setdefault(d0.split('.')[1], []).append(g.node_of_stmt(st)[0])
+        tsp = set()
+        for k in P.classes.values():
+            if c in P.mro(k) or k is c:
+                for d in getattr(k.node, 'decorator_list', []):
+                    if isinstance(d, ast.Call) and dotted(d.func) == 'ts_props':
+                        tsp |= {a.value for a in d.args if isinstance(a, ast.Constant)}
+        for k in P.mro(c):
+            if not k.fq.startswith('ombott.'):
+                continue
+            for m in k.methods.values():
+                if m.name in ('__init__', '__new__') or m.name in CONFIG_TIME_FUNCS or m.name in ('off',):
+                    continue
+                for n in walk_shallow(m.node):
+                    attr = None
+                    if isinstance(n, ast.Assign):
+                        for t in n.targets:
+                            if isinstance(t, ast.Subscript):
+                                d0 = dotted(t.value) or ''
+                                if d0.startswith('self.') and d0.count('.') == 1:
+                                    attr = d0.split('.')[1]
+                    elif isinstance(n, ast.Call) and isinstance(n.func, ast.Attribute) and n.func.attr in ('append', 'extend', 'insert', 'update', 'add', 'setdefault'):
+                        d0 = dotted(n.func.value) or ''
+                        if d0.startswith('self.') and d0.count('.') == 1:
+                            attr = d0.split('.')[1]
+                    if attr is None:
+                        continue
+                    rs = resets.get(attr, [])
+                    ok = attr in tsp or (bool(rs) and g.must_pass(g.entry, g.exit, rs))
+                    R.ob(rid, m, n, ok, text=f'{k.name}.{m.name}: `{short(n)}` goes into self.{attr}, re-created by every __init__', detail='' if ok else
+                         f'`{short(n)}` stores per-request data in self.{attr} of the long-lived {c.name} object, and {c.name}.__init__ (run for every request) does not '
+                         f're-create self.{attr}: what one request stores there is still there for all later requests on that thread (e.g. `request.user` set by a '
+                         f'hook only when a token is present is seen by the following anonymous requests)',
+                         why='each response is what a fresh application would give: nothing of an earlier request is visible', key_extra=f'carry:{k.name}.{m.name}.{attr}')
